@@ -413,6 +413,35 @@ func (e *env) directedV1b() {
 		judge("jointly-funded-transaction-foundation-input-partially-signed(control)", "", mk(false), "accept")
 		judge("foundation-update-appended-beside-a-partially-signed-foundation-input", "a Foundation address update was accepted although the only Foundation-controlled input is signed with covered fields that do not include it; the whole-transaction signature belongs to another party's input", mk(true), "reject")
 	}
+	// (c) two parties, each signing its own input and its own output by index: the second party's signature lists
+	// output 1, and it is output 1 - not the first as many outputs as it lists - that it protects
+	cs = c.Tip()
+	if len(singles) > 2 {
+		a, o := singles[len(singles)-1], singles[len(singles)-2]
+		mk := func(out0, out1 types.Address, resign bool) types.Transaction {
+			txn := types.Transaction{
+				SiacoinInputs:  []types.SiacoinInput{{ParentID: a.el.ID, UnlockConditions: *a.lock.UC}, {ParentID: o.el.ID, UnlockConditions: *o.lock.UC}},
+				SiacoinOutputs: []types.SiacoinOutput{{Value: a.el.SiacoinOutput.Value, Address: a.el.SiacoinOutput.Address}, {Value: o.el.SiacoinOutput.Value, Address: o.el.SiacoinOutput.Address}},
+			}
+			cfA := types.CoveredFields{SiacoinInputs: []uint64{0}, SiacoinOutputs: []uint64{0}}
+			cfO := types.CoveredFields{SiacoinInputs: []uint64{1}, SiacoinOutputs: []uint64{1}}
+			sA := a.key.SignHash(cs.PartialSigHash(txn, cfA))
+			sO := o.key.SignHash(cs.PartialSigHash(txn, cfO))
+			txn.SiacoinOutputs[0].Address, txn.SiacoinOutputs[1].Address = out0, out1
+			if resign {
+				sA = a.key.SignHash(cs.PartialSigHash(txn, cfA))
+				sO = o.key.SignHash(cs.PartialSigHash(txn, cfO))
+			}
+			txn.Signatures = []types.TransactionSignature{{ParentID: types.Hash256(a.el.ID), CoveredFields: cfA, Signature: sA[:]}, {ParentID: types.Hash256(o.el.ID), CoveredFields: cfO, Signature: sO[:]}}
+			return txn
+		}
+		stranger := types.StandardUnlockHash(types.GeneratePrivateKey().PublicKey())
+		judge("two-parties-each-signing-their-own-output-by-index(control)", "", mk(a.el.SiacoinOutput.Address, o.el.SiacoinOutput.Address, false), "accept")
+		judge("two-parties-each-signing-their-own-output-by-index/resigned-for-other-recipients(control)", "", mk(types.VoidAddress, stranger, true), "accept")
+		judge("output-listed-by-index-in-the-second-partys-signature-redirected", "the output a party's partial signature lists by index (output 1) was redirected to a stranger after signing and the transaction was accepted", mk(a.el.SiacoinOutput.Address, stranger, false), "reject")
+		judge("output-listed-by-index-in-the-first-partys-signature-redirected", "the output a party's partial signature lists by index (output 0) was redirected to a stranger after signing and the transaction was accepted", mk(stranger, o.el.SiacoinOutput.Address, false), "reject")
+		e.b.Count("partial_signature_output_index_cases", 1)
+	}
 }
 
 func ensureV2Data(b *types.Block) {
